@@ -39,6 +39,12 @@ type Hooks struct {
 	Oracles  func() []Oracle
 	Epilogue func(c *Cluster, g *Gen) // extra end-of-case behaviour (inside the bubble)
 	Setup    func(c *Cluster)
+	// StopOn says which violations end the case at once (nil: every violation does). A check
+	// stops on violations of the properties it owns and on known findings (everything after a
+	// known root cause is its consequence); violations of other properties are recorded but the
+	// schedule goes on, so that a defect whose first symptom belongs to another property can
+	// still run into this one.
+	StopOn func(v Violation) bool
 }
 
 var hangSeen bool
@@ -241,7 +247,17 @@ func runInBubble(base string, p Profile, h Header, hooks Hooks, mk func(c *Clust
 	c.prologue(p)
 	next := mk(c)
 	v := c.Observe()
-	bad := func() bool { return len(c.rec.Violations()) > 0 || c.Tainted() != "" }
+	bad := func() bool {
+		if c.Tainted() != "" {
+			return true
+		}
+		for _, v := range c.rec.Violations() {
+			if hooks.StopOn == nil || hooks.StopOn(v) {
+				return true
+			}
+		}
+		return false
+	}
 	for !bad() {
 		a, ok := next(v)
 		if !ok {
